@@ -202,6 +202,7 @@ func runC02(c *Ctx, r *Report) {
 	defer c02r6(c, r)
 	defer c02r8(c, r)
 	defer c02r10(c, r)
+	defer c02r11(c, r)
 	defer c02r7(c, r)
 	defer c13r3(c, r) // workers of a cancelled scan must be gone before their slabs are handed out again (crash otherwise)
 	defer func() {
@@ -351,6 +352,7 @@ func runC03(c *Ctx, r *Report) {
 	c03r4(c, r)
 	c03r5(c, r)
 	c03r6(c, r)
+	c03r7(c, r)
 	c05r9(c, r)  // the recurrence reads only cells of this call: boundary cells of shifted windows are initialised
 	c02r5(c, r)  // 'over the whole line': the pre-filter window must not cut off upper-case occurrences
 	c13r3(c, r)  // two scans must never fill the same score matrices at once
